@@ -115,7 +115,7 @@ def check_from_raw(chk, cfg, b):
     p = somes[0]
     # the vector: from_slice(words), possibly truncated
     v = opt_kind(p.raw.ret)[1] if False else None
-    N = nf.Norm(env=p.raw.env)
+    N = an.norm_of(p)
     agg = opt_kind(p.ret)[1]
     rawagg = [t for t in __import__("terms").walk(p.raw.ret) if t[0] == "agg" and t[1] == "seq::Seq"]
     if not rawagg:
